@@ -13,7 +13,7 @@ ID = "C08"
 LEVEL = "fault_enumeration"
 COUNTS = {"quick": 3000, "thorough": 150000}
 RULE = ("CHECK CONDITION faults with generated sense payloads (response code 70h-73h/unknown x 16 keys x ASC/ASCQ x VALID x "
-        "length 1-252 x filler) injected into commands on the SG_IO and iSCSI devices; the application then does str(), print() "
+        "length 1-252 x filler; 3% empty buffers over iSCSI) injected into commands on the SG_IO and iSCSI devices; the application then does str(), print() "
         "and reads key/asc/ascq. Enumerated: all 256 ASCQ for every (format, key, ASC) = the full 65536-pair code space per key "
         "and format (thorough), one key per format (quick). Non-trivial = at least one payload was delivered as CHECK CONDITION "
         "and reached the decoder; distinct = event digest")
@@ -27,7 +27,7 @@ ASSUMPTIONS = [
     "T10 text is demanded (case-insensitive substring) only for the ~150 well-known codes in t10/sense.py and the 15 named sense keys",
     "for response codes outside 70h-73h only 'does not raise' is demanded",
 ]
-REQUIRED_PROBES = ["reinspected", "print_data_option", "decoded_ok", "text_ok", "rc_deferred", "rc_unknown", "short_buffer", "long_sense_iscsi"]
+REQUIRED_PROBES = ["reinspected", "print_data_option", "decoded_ok", "text_ok", "rc_deferred", "rc_unknown", "short_buffer", "long_sense_iscsi", "empty_sense_iscsi"]
 
 RCS = [0x70, 0x71, 0x72, 0x73]
 
@@ -91,6 +91,10 @@ def generate(rng, idx, tier):
     for _ in range(n):
         ops.append({"sense": gen_payload(rng).hex(), "transport": rng.choice(["sgio", "iscsi"]),
                     "raw": rng.random() < 0.15})
+        if rng.random() < 0.03:
+            # CHECK CONDITION whose sense buffer is present but empty (the iSCSI binding hands over zero bytes; the SG_IO binding
+            # reports an unspecified error in that case, which is C07's)
+            ops[-1].update(sense="", transport="iscsi")
     return {"property": ID, "config": {"iscsi_sense_bytearray": rng.random() < 0.5}, "ops": ops}
 
 
@@ -191,6 +195,8 @@ def one(dev, sense, raw, where, V):
     handed = d[0]["handed"]
     if len(handed) > 32:
         WORLD.probe("long_sense_iscsi")
+    if not handed:
+        WORLD.probe("empty_sense_iscsi")
     cc_cls = getattr(type(dev), "CheckCondition", None)
     if kind == "ok":
         if raw:
@@ -202,7 +208,7 @@ def one(dev, sense, raw, where, V):
                           expected="a CheckCondition for sense %s" % handed.hex(), actual="execute returned normally"))
             return
     if kind == "exc" and not (isinstance(cc_cls, type) and isinstance(val, cc_cls)) and not type(val).__name__ == "SCSICheckCondition":
-        rc = handed[0] & 0x7F
+        rc = (handed[0] & 0x7F) if handed else 0
         V.append(dict(oracle="C08.construct-raises", where=where, detail="rc=%s/%s" % ("%#04x" % rc if rc in RCS else "other", type(val).__name__),
                       expected="a CheckCondition for sense %s" % handed.hex(), actual=repr(val)[:120]))
         return
@@ -210,7 +216,7 @@ def one(dev, sense, raw, where, V):
     if len(KEPT) < 24:
         KEPT.append((val, handed, where))
     # the constructor's print_data option: converting to text also prints the decoded fields
-    if (handed[0] & 0x7F) in RCS and (len(handed) % 3) == 0 and isinstance(cc_cls, type):
+    if handed and (handed[0] & 0x7F) in RCS and (len(handed) % 3) == 0 and isinstance(cc_cls, type):
         import contextlib
         WORLD.probe("print_data_option")
         with contextlib.redirect_stdout(io.StringIO()):
